@@ -164,6 +164,7 @@ Proof.
   intros env st mpos dm mid dmx st' sigs Hone H mstart msize.
   unfold import_message_signals in H. cbv zeta in H. fold (sorted_signals dm) in H.
   unfold one_muxor in Hone. rewrite Hone in H.
+  destruct (ds_muxed dmx); [discriminate|].
   apply bind_ok in H. destruct H as [[[[st1 muxed] stds] last] [H1 H]].
   apply one_mux_loop1 in H1. cbn [fst snd] in H1. destruct H1 as [_ [_ L1]].
   apply bind_ok in H. destruct H as [[[st2 sg] muxed2] [H2 H]].
